@@ -10,6 +10,7 @@ import (
 	"fmt"
 	"hash/fnv"
 	"sort"
+	"strings"
 	"time"
 
 	sdkmath "cosmossdk.io/math"
@@ -180,6 +181,7 @@ type Action struct {
 	Params    *ParamsJ                    `json:"params,omitempty"`
 	Listeners int                         `json:"listeners,omitempty"`
 	TickMs    int64                       `json:"tickMs,omitempty"`
+	Upper     bool                        `json:"upper,omitempty"` // messages and queries: the account address is spelled in upper case
 	// messages
 	By        string   `json:"by,omitempty"`
 	Price     int64    `json:"price,omitempty"`
@@ -328,6 +330,37 @@ func (e *Env) fillNames() {
 }
 
 // AddrStr returns the bech32 string for a model user; unknown names give an invalid address.
+// spell returns the address of a user as a message carries it: bech32 in lower case, or -- equally valid, and the
+// same account -- in upper case.
+func (e *Env) spell(u string, upper bool) string {
+	s := e.AddrStr(u)
+	if upper && s != "not-an-address" {
+		return strings.ToUpper(s)
+	}
+	return s
+}
+
+// SetSpelling marks, in every third behaviour (by content hash), every second message or query as carrying its
+// account address in upper-case bech32 (Action.Upper, recorded in the trace).  The spelling of an address is not
+// part of any property: the specification ignores the field, so the verdicts must be the same.
+func SetSpelling(acts []Action, raws []map[string]any, bz []byte) {
+	h := fnv.New32a()
+	h.Write(bz)
+	x := h.Sum32()
+	if x%3 != 1 {
+		return
+	}
+	for i := range acts {
+		switch acts[i].A {
+		case "CreateFixed", "CreateBatch", "Cancel", "Bid", "Modify", "MsgAddAllowed", "Query":
+			if (int(x>>8)+i)%2 == 0 && !acts[i].Upper {
+				acts[i].Upper = true
+				raws[i]["upper"] = true
+			}
+		}
+	}
+}
+
 func (e *Env) AddrStr(u string) string {
 	if a, ok := e.Addr[u]; ok {
 		return a.String()
